@@ -8,6 +8,8 @@
 \*   var_untyped x      as many declarations of x without a type as the program has declarations of x whose type was omitted
 \*   new_inferred C     as many constructor calls of the generic class C without explicit type arguments as the program has such
 \*                      calls flagged inferable (so an erased annotation is really absent, an explicit one really present)
+\*   fun_tparam f T     as many headers of functions named f declare a type parameter T as the program has such functions  (Kotlin, Scala)
+\*   class_tparam C T   the header of class C declares its type parameter T (all four languages)
 \*   str s              every string literal of the program appears (as often as in the program)
 \*   balanced           brackets, braces and parentheses are balanced outside literals
 EXTENDS Naturals, Sequences, FiniteSets
@@ -60,4 +62,11 @@ Probes(P) ==
   \cup {<<"new_inferred", P.ev[j].t.n>> : j \in Idx(P, LAMBDA e : e.ev = "New" /\ e.t.a # <<>>)}
   \cup {<<"str", P.ev[j].text>> : j \in Idx(P, LAMBDA e : e.ev = "Const" /\ e.lit = "string")}
   \cup {<<"balanced", "">>}
+\* ---- type-parameter declarations (probes with two names: owner, parameter) -----------------------------------------------------
+ExpressesT(lang, kind) == IF kind = "fun_tparam" THEN lang \in {"kotlin", "scala"} ELSE kind = "class_tparam"
+OwnerKind(kind) == IF kind = "fun_tparam" THEN "Fun" ELSE "Class"
+ExpectedT(P, kind, owner, tparam) ==
+  Count(Idx(P, LAMBDA e : e.ev = "Enter" /\ e.kind = OwnerKind(kind) /\ e.name = owner /\ \E q \in DOMAIN e.tps : e.tps[q].n = tparam))
+TProbes(P) == UNION {{<<IF P.ev[j].kind = "Fun" THEN "fun_tparam" ELSE "class_tparam", P.ev[j].name, P.ev[j].tps[q].n>> : q \in DOMAIN P.ev[j].tps} :
+                       j \in Idx(P, LAMBDA e : e.ev = "Enter" /\ e.kind \in {"Fun", "Class"})}
 =============================================================================
